@@ -1,6 +1,6 @@
 // ref/bigint.hpp -- a small fixed-width unsigned big integer, written for obviousness, not speed.
 //
-//   struct U : 20 x 32-bit limbs (640 bits), little-endian limb order, value semantics.
+//   struct U : 10 x 64-bit limbs (640 bits), little-endian limb order, value semantics.
 //   Schoolbook algorithms only. All arithmetic is modulo 2^640 (i.e. silently truncating), so callers must keep
 //   operands small enough: everything in the curve models is < 2^512 before reduction, and products are only ever
 //   formed from operands < 2^256 (or 2^512 x 2^32), which leaves ample head-room.
@@ -18,16 +18,16 @@
 namespace ref {
 
 struct U {
-    static const int N = 20;  // limbs
-    static const int BITS = 32 * N;
-    uint32_t w[N];
+    static const int N = 10;  // limbs
+    static const int BITS = 64 * N;
+    uint64_t w[N];
     U() { for (int i = 0; i < N; i++) w[i] = 0; }
     U(uint64_t v) {  // NOLINT: implicit on purpose, so that small constants can be written inline
         for (int i = 0; i < N; i++) w[i] = 0;
-        w[0] = (uint32_t) v;
-        w[1] = (uint32_t)(v >> 32);
+        w[0] = v;
     }
 };
+typedef unsigned __int128 u128;  // double-limb accumulator for carries
 
 // ---------------------------------------------------------------- basic queries
 inline int u_used(const U &a) {  // number of significant limbs (0 for the value 0)
